@@ -461,3 +461,39 @@ func InstrsDeep(fn *ssa.Function, f func(*ssa.Function, ssa.Instruction)) {
 		Instrs(cc, func(in ssa.Instruction) { f(cc, in) })
 	}
 }
+
+// ReachableFromEntryAvoidingEdges is ReachableFromEntryAvoiding with a set of
+// CFG edges that must not be followed (infeasible under an assumed value).
+func ReachableFromEntryAvoidingEdges(target ssa.Instruction, avoid func(ssa.Instruction) bool, blocked map[Edge]bool) bool {
+	fn := target.Parent()
+	if fn == nil || len(fn.Blocks) == 0 {
+		return false
+	}
+	seen := make([]bool, len(fn.Blocks))
+	stack := []*ssa.BasicBlock{fn.Blocks[0]}
+	seen[0] = true
+	for len(stack) > 0 {
+		x := stack[len(stack)-1]
+		stack = stack[:len(stack)-1]
+		stop := false
+		for _, in := range x.Instrs {
+			if in == target {
+				return true
+			}
+			if avoid(in) {
+				stop = true
+				break
+			}
+		}
+		if stop {
+			continue
+		}
+		for _, s := range x.Succs {
+			if !seen[s.Index] && !blocked[Edge{x.Index, s.Index}] {
+				seen[s.Index] = true
+				stack = append(stack, s)
+			}
+		}
+	}
+	return false
+}
